@@ -298,6 +298,12 @@ func handleHotRestart(s *Session, hdr header, buf []byte) (int, bool, error) {
 	epochID := binary.BigEndian.Uint64(buf[:epochIDLen])
 	s.logger.warnf("%s [epoch:%d] receive hot restart", s.sessionName(), epochID)
 
+	// only sessions owned by a SessionManager can follow a hot restart
+	if s.manager == nil {
+		s.logger.warnf("%s [epoch:%d] ignore hot restart, the session has no session manager", s.sessionName(), epochID)
+		return headerSize + epochIDLen, false, nil
+	}
+
 	s.dispatcher.post(func() {
 		s.manager.handleEvent(typeHotRestart, &sessionManagerHotRestartParams{epoch: epochID, session: s})
 	})
@@ -311,6 +317,11 @@ func handleHotRestartAck(s *Session, hdr header, buf []byte) (int, bool, error) 
 	}
 	epochID := binary.BigEndian.Uint64(buf[:epochIDLen])
 	s.logger.warnf("%s [epoch:%d] receive hot restart ack", s.name, epochID)
+
+	// the ack is only meaningful on a server session owned by a Listener
+	if s.listener == nil {
+		return headerSize + epochIDLen, false, ErrInvalidMsgType
+	}
 
 	s.listener.mu.Lock()
 	defer s.listener.mu.Unlock()
